@@ -5,6 +5,7 @@ package bus
 // Contracts for the snesvc verifier (/verif). Comment-only; compiled only with -tags verif.
 
 //@ func (*Bus).Attach
+//@   params b mem name start end
 //@   property C13 C11
 //@   modular
 //@   requires end < 0x1000000
@@ -18,6 +19,7 @@ package bus
 //@   loop 1 modifies b.segment
 
 //@ func (*Bus).EaRead
+//@   params b a
 //@   property C13
 //@   pure emulator/memory.Memory.Read
 //@   requires a < 0x1000000
@@ -28,6 +30,7 @@ package bus
 //@   assigns b.EA, b.Write
 
 //@ func (*Bus).EaWrite
+//@   params b a value
 //@   property C13
 //@   requires a < 0x1000000
 //@   panics isnil(b.segment[a>>4])
@@ -40,6 +43,7 @@ package bus
 // unattached addresses are untouched. P(j) below is that statement for one position.
 
 //@ func (*Bus).EaDump
+//@   params b start end data
 //@   property C13
 //@   requires start <= end && end < 0x1000000 && len(data) > int(end-start)
 //@   ensures ret1 == int(end-start)+1
